@@ -1,4 +1,4 @@
-HOOK_COMMITS = ["984bb2e", "93a81a8", "9a7dec3", "576a1e4"]
+HOOK_COMMITS = ["984bb2e", "93a81a8", "9a7dec3", "576a1e4", "d978353"]
 ENGINES = [
  {"name": "tlc+harness", "path": "check", "serves_properties": ["C01", "C04", "C05"],
   "kind_free_text": "TLA+ specs under spec/ checked with TLC (design level + script generation) and bound to the "
